@@ -64,6 +64,12 @@ def make_template(V, name):
         return V.ExponentiatedWeibullDistribution(f_delta=5)
     if name == "ewfree":
         return V.ExponentiatedWeibullDistribution()
+    if name == "lognormal_fs":      # fixed sigma: only mu is conditional
+        return V.LogNormalDistribution(f_sigma=0.25)
+    if name == "normal_fs":
+        return V.NormalDistribution(f_sigma=0.8)
+    if name == "weibull_fb":        # fixed shape and location: only the scale is conditional
+        return V.WeibullDistribution(f_beta=2.0, f_gamma=0.0)
     raise KeyError(name)
 
 
@@ -121,13 +127,15 @@ def build_model(spec):
     tagged (attributes survive copy.deepcopy) so that recorded engine calls can be attributed"""
     V, D, DEP, IV, JM = _imp()
     b = Built()
-    b.reflog, b.param_names, b.init_t, b.init_d, b.dep_ids = [], [], {}, {}, {}
+    b.reflog, b.param_names, b.init_t, b.init_d, b.dep_ids, b.fresh, b.fixed = [], [], {}, {}, {}, {}, {}
     descs = []
     dep_id = 0
     for i, dm in enumerate(spec["dims"]):
         t = make_template(V, dm["template"])
         t._c09_tag = i
+        b.fresh[i] = copy.deepcopy(t)
         names = list(t.parameters)
+        b.fixed[i] = {pn: float(getattr(t, "f_" + pn)) for pn in names if getattr(t, "f_" + pn) is not None}
         b.param_names.append(names)
         b.init_t[i] = [float(v) for v in t.parameters.values()]
         desc = {"distribution": t}
@@ -240,6 +248,8 @@ def snapshot(b):
                         "boundaries": [(float(a), float(bb)) for a, bb in d.conditioning_interval_boundaries],
                         "pars": [[float(p[k]) for k in b.param_names[i]] for p in d.parameters_per_interval],
                         "n_dists": len(d.distributions_per_interval),
+                        "dist_pars": [[float(x.parameters[k]) for k in b.param_names[i]] for x in d.distributions_per_interval],
+                        "fixed": {k: float(v) for k, v in d.fixed_parameters.items()},
                         "deps": [(pn, [float(v) for v in df.parameters.values()]) for pn, df in d.conditional_parameters.items()]})
         else:
             res.append({"cond": False, "pars": [float(v) for v in d.parameters.values()]})
@@ -247,7 +257,7 @@ def snapshot(b):
 
 
 # ------------------------------------------------------------------ case generation
-TEMPL_COND = ["lognormal", "lognormal", "normal", "weibull2", "ew", "weibull"]
+TEMPL_COND = ["lognormal", "lognormal", "normal", "weibull2", "ew", "weibull", "lognormal_fs", "normal_fs", "weibull_fb"]
 TEMPL_IND = ["weibull", "weibull2", "lognormal", "ewfree", "ew"]
 STRUCTS = [[None, 0], [None, 0], [None, 0, 1], [None, 0, 0], [None, None, 1], [None, None, 0]]
 
@@ -334,9 +344,9 @@ def gen_data(nrng, spec, n_rows, variant):
             x = nrng.weibull(1.5, n_rows) * 2.6 + 0.15
         else:
             p = cols[c]
-            if dm["template"] == "normal":
+            if dm["template"] in ("normal", "normal_fs"):
                 x = nrng.normal(2.0 + 0.6 * p, 0.4 + 0.08 * p)
-            elif dm["template"] in ("lognormal",):
+            elif dm["template"] in ("lognormal", "lognormal_fs"):
                 x = np.exp(nrng.normal(0.9 + 0.3 * np.sqrt(p), 0.18))
             else:
                 x = (1.0 + 0.5 * p) * nrng.weibull(2.2, n_rows) + 0.05
@@ -353,7 +363,7 @@ def gen_data(nrng, spec, n_rows, variant):
         data[:, 0] = nrng.choice(base, n_rows)
     # keep positive supports positive after rounding (normal-distributed columns may be anything)
     for i, dm in enumerate(spec["dims"]):
-        if dm["template"] != "normal":
+        if dm["template"] not in ("normal", "normal_fs"):
             data[:, i] = np.maximum(data[:, i], 0.05)
     return data
 
@@ -623,7 +633,7 @@ def check_membership(spec, data, i, d):
                 return (sig, "dimension %d interval %d %r: fitted to %d observations, but %d observations have their conditioning value in it" % (
                     i, k, (lo, hi), len(d["data_intervals"][k]), int(m.sum())))
             ref = s["reference"]
-            want = {"center": (lo + hi) / 2, "left": lo, "right": hi, "median": float(np.median(x[m])) if m.any() else None,
+            want = {"callable": None, "center": (lo + hi) / 2, "left": lo, "right": hi, "median": float(np.median(x[m])) if m.any() else None,
                     "mean": float(np.mean(x[m])) if m.any() else None}[ref]
             if want is not None and not relclose(d["conditioning_values"][k], want, 1e-9, 1e-9):
                 return (dict(sig, clause="reference"), "dimension %d interval %d: conditioning value %r is not the %s (%r) of the interval" % (
@@ -659,6 +669,15 @@ def check_calls(b, spec, fds, out, rec):
                 return ({"clause": "options"}, "dimension %d is fitted with (method=%r, weights=%r), its fit description says (%r, %r)" % (
                     i, c["method"], c["weights"], m, w))
         if d["cond"]:
+            if d["fixed"] != b.fixed[i] or [pn for pn, _ in d["deps"]] != [pn for pn in b.param_names[i] if pn not in b.fixed[i]]:
+                return ({"clause": "fixed-parameters"}, "dimension %d: fixed parameters %r / dependence functions for %r, the template fixes %r" % (
+                    i, d["fixed"], [pn for pn, _ in d["deps"]], b.fixed[i]))
+            for k, p in enumerate(d["pars"]):
+                for j, pn in enumerate(b.param_names[i]):
+                    if pn in b.fixed[i] and p[j] != b.fixed[i][pn]:
+                        return ({"clause": "fixed-parameters"}, "dimension %d interval %d: fixed parameter %s = %r was estimated as %r" % (i, k, pn, b.fixed[i][pn], p[j]))
+            if d["dist_pars"] != d["pars"]:
+                return ({"clause": "lists"}, "dimension %d: distributions_per_interval and parameters_per_interval do not run parallel" % i)
             if len(calls) != len(d["data_intervals"]):
                 return ({"clause": "template-fits"}, "dimension %d: %d template fits for %d intervals" % (i, len(calls), len(d["data_intervals"])))
             for k, c in enumerate(calls):
@@ -694,7 +713,7 @@ def standalone(b, spec, fds, out):
             continue
         m, w = filled(fds, i)
         for k, obs in enumerate(d["data_intervals"]):
-            t = make_template(V, spec["dims"][i]["template"])
+            t = copy.deepcopy(b.fresh[i])
             try:
                 with warnings.catch_warnings(), np.errstate(all="ignore"):
                     warnings.simplefilter("ignore")
@@ -849,6 +868,12 @@ def jsonable_case(case):
 
 def replay(ctx, c):
     notes = {}
+    special = shipped_oracle if c.get("predefined") else input_oracle if c.get("input") else exception_oracle if c.get("bad") else None
+    if special:
+        o = special(dict(c, data=np.array(c["data"], dtype=float)), notes)
+        if o:
+            print("  ", o[0], o[1])
+        return o is not None
     if c.get("nested"):
         o = nested_oracle(c, notes)
         if o:
@@ -981,6 +1006,295 @@ def jsonable_nested(case):
             "data_b": [[float(v) for v in r] for r in np.asarray(case["data_b"], dtype=float)]}
 
 
+# ------------------------------------------------------------------ shipped models, input types, history after an exception
+def slicer_spec(sl):
+    IV = _imp()[3]
+    ref = sl.reference.fn if isinstance(sl.reference, RecRef) else sl.reference
+    r = ("median" if ref is np.median else "mean" if ref is np.mean else "callable") if callable(ref) else str(ref).lower()
+    kw = {"min_n_points": sl.min_n_points, "min_n_intervals": sl.min_n_intervals, "reference": r}
+    if isinstance(sl, IV.WidthOfIntervalSlicer):
+        return dict(kw, kind="width", width=sl.width, right_open=sl.right_open, value_range=None if sl.value_range is None else list(sl.value_range))
+    if isinstance(sl, IV.NumberOfIntervalsSlicer):
+        return dict(kw, kind="number", n_intervals=sl.n_intervals, include_max=sl.include_max,
+                    value_range=None if sl.value_range is None else list(sl.value_range))
+    return dict(kw, kind="ppi", n_points=sl.n_points, last_full=sl.last_full)
+
+
+def wrap_model(model, fds):
+    """tags and a spec-like description for a model that was NOT built by build_model (shipped model descriptions)"""
+    V, D, DEP, IV, JM = _imp()
+    b = Built()
+    b.model, b.reflog, b.param_names, b.init_t, b.init_d, b.dep_ids, b.fresh, b.fixed = model, [], [], {}, {}, {}, {}, {}
+    spec = {"dims": [], "fds": fds}
+    dep_id = 0
+    for i, d in enumerate(model.distributions):
+        cond = isinstance(d, D.ConditionalDistribution)
+        t = d.distribution if cond else d
+        t._c09_tag = i
+        b.fresh[i] = copy.deepcopy(t)
+        names = list(t.parameters)
+        b.param_names.append(names)
+        b.init_t[i] = [float(v) for v in t.parameters.values()]
+        b.fixed[i] = {pn: float(getattr(t, "f_" + pn)) for pn in names if getattr(t, "f_" + pn) is not None}
+        dm = {"template": type(t).__name__, "conditional_on": model.conditional_on[i], "slicer": slicer_spec(model.interval_slicers[i])}
+        if cond:
+            dm["deps"] = {}
+            for pn, df in d.conditional_parameters.items():
+                df._c09_tag = dep_id
+                b.init_d[dep_id] = [float(v) for v in df.parameters.values()]
+                b.dep_ids[(i, pn)] = dep_id
+                dep_id += 1
+                dm["deps"][pn] = "shipped"
+        spec["dims"].append(dm)
+    return b, spec
+
+
+PREDEFINED = ["get_DNVGL_Hs_Tz", "get_DNVGL_Hs_U", "get_OMAE2020_Hs_Tz", "get_OMAE2020_V_Hs", "get_Windmeier_EW_Hs_S", "get_Nonzero_EW_Hs_S"]
+_DATASETS = {}
+
+
+def shipped_data(name):
+    """rows for a shipped model description from the datasets of the repository (in the model's variable order;
+    hs-tz for the two models that are defined in hs-steepness space)"""
+    import os
+    def load(fn):
+        if fn not in _DATASETS:
+            _DATASETS[fn] = np.genfromtxt(os.path.join(vlib.REPO, "datasets", fn), delimiter=";", skip_header=1, usecols=(1, 2))
+        return _DATASETS[fn]
+    if name == "get_DNVGL_Hs_U":
+        return load("ec-benchmark_dataset_D_1year.txt")[:, ::-1].copy()
+    if name == "get_OMAE2020_V_Hs":
+        return load("ec-benchmark_dataset_D_1year.txt").copy()
+    return load("ec-benchmark_dataset_A_1year.txt").copy()
+
+
+def shipped_build(name, via_transformed):
+    V, D, DEP, IV, JM = _imp()
+    import virocon.predefined as PRE
+    got = getattr(PRE, name)()
+    descs, fds = got[0], got[1]
+    model = V.GlobalHierarchicalModel(descs)
+    b, spec = wrap_model(model, fds)
+    b.transform = got[3]["transform"] if len(got) > 3 else None
+    b.entry = JM.TransformedModel(model, got[3]["transform"], got[3]["inverse"], got[3]["jacobian"]) if (via_transformed and len(got) > 3) else model
+    return b, spec
+
+
+def shipped_fit(b, data, fds):
+    """like run_fit, through b.entry (GlobalHierarchicalModel or the TransformedModel around it)"""
+    import warnings
+    with np.errstate(all="ignore"), Recording() as rec:
+        try:
+            with warnings.catch_warnings():
+                warnings.simplefilter("ignore")
+                b.entry.fit(data, copy.deepcopy(fds))
+            out = {"ok": True, "dims": snapshot(b)}
+        except Exception as e:  # noqa
+            out = {"ok": False, "engine": rec.engine_raised or isinstance(e, NotImplementedError), "err": type(e).__name__, "msg": str(e)[:200]}
+    rec.refs = []
+    return out, rec
+
+
+def shipped_oracle(case, notes):
+    """the clauses of the property on a shipped model description, fitted to rows of a shipped dataset"""
+    name, via = case["predefined"], case.get("via_transformed", False)
+    data, perm = np.asarray(case["data"], dtype=float), np.asarray(case["perm"], dtype=int)
+    b1, spec = shipped_build(name, via)
+    fds = spec["fds"]
+    sigx = {"model": name}
+    if b1.transform is not None and not via:
+        data = b1.transform(data)                # fitted directly in the model's own (hs, steepness) space
+        b1.transform = None
+    o1, r1 = shipped_fit(b1, data, fds)
+    if not o1["ok"]:
+        if o1["engine"] or o1["err"] == "RuntimeError":
+            notes["shipped_unjudged"] = notes.get("shipped_unjudged", 0) + 1
+            return None
+        return (dict(sigx, clause="unexpected-exception", err=o1["err"]), "%s: fit raises %s: %s" % (name, o1["err"], o1["msg"]))
+    seen = b1.transform(data) if b1.transform is not None else data      # what the hierarchical model is fitted to
+    for i, d in enumerate(o1["dims"]):
+        if d["cond"]:
+            v = check_membership(spec, seen, i, d)
+            if v:
+                return dict(v[0], **sigx), name + ": " + v[1]
+    v = check_calls(b1, spec, fds, o1, r1)
+    if v:
+        return dict(v[0], **sigx), name + ": " + v[1]
+    v, ex, tot = standalone(b1, spec, fds, o1)
+    notes["standalone_fits"] = notes.get("standalone_fits", 0) + tot
+    notes["standalone_fits_bit_exact"] = notes.get("standalone_fits_bit_exact", 0) + ex
+    if v:
+        return dict(v[0], **sigx), name + ": " + v[1]
+    b2, _ = shipped_build(name, via)
+    o2, r2 = shipped_fit(b2, data[perm], fds)
+    if not o2["ok"] and (o2["engine"] and o2["err"] == "RuntimeError"):
+        notes["shipped_unjudged"] = notes.get("shipped_unjudged", 0) + 1
+        return None
+    v = compare_models(spec, seen, o1, o2, "order-invariance", notes)
+    if v:
+        return dict(v[0], **sigx), name + ": " + v[1]
+    # re-fit of the (permuted-data) model to the original order = the first model
+    o3, r3 = shipped_fit(b2, data, fds)
+    if not o3["ok"] and (o3["engine"] and o3["err"] == "RuntimeError"):
+        notes["shipped_unjudged"] = notes.get("shipped_unjudged", 0) + 1
+        return None
+    v = compare_models(spec, seen, o1, o3, "re-fit", notes)
+    if v:
+        return dict(v[0], **sigx), name + ": " + v[1]
+    if o3["ok"]:
+        v = check_calls(b2, spec, fds, o3, r3)
+        if v:
+            return dict(v[0], history="re-fit", **sigx), name + ": re-fit: " + v[1]
+        # dependence functions (some nested, some weighted) of the re-fit against the first fit, at the references
+        for i, (d1, d3) in enumerate(zip(o1["dims"], o3["dims"])):
+            if not d1["cond"]:
+                continue
+            refs = np.array(d1["conditioning_values"], dtype=float)
+            c1, c3 = b1.model.distributions[i].conditional_parameters, b2.model.distributions[i].conditional_parameters
+            for j, pn in enumerate(b1.param_names[i]):
+                if pn not in c1:
+                    continue
+                y = np.array([p[j] for p in d1["pars"]], dtype=float)
+                v1, v3 = np.asarray(c1[pn](refs), dtype=float), np.asarray(c3[pn](refs), dtype=float)
+                scale = float(np.max(np.abs(y))) or 1.0
+                r1_, r3_ = float(np.sum((v1 - y) ** 2)), float(np.sum((v3 - y) ** 2))
+                if float(np.max(np.abs(v1 - v3))) > 1e-3 * scale and r3_ > r1_ * 1.05 + 1e-12 * scale ** 2:
+                    return (dict(sigx, clause="re-fit", kind="dependence"),
+                            "%s: dependence function of %s of a re-fitted model is a worse fit to the interval estimates than that of a fresh model "
+                            "(squared residual %.6g vs %.6g)" % (name, pn, r3_, r1_))
+    return None
+
+
+def as_input(data, kind):
+    if kind == "list":
+        return [[float(v) for v in r] for r in data]
+    if kind == "tuple":
+        return tuple(tuple(float(v) for v in r) for r in data)
+    if kind == "dataframe":
+        import pandas as pd
+        return pd.DataFrame(data, columns=["v%d" % i for i in range(data.shape[1])])
+    if kind == "fortran":
+        return np.asfortranarray(data)
+    if kind == "strided":                       # a non-contiguous view
+        big = np.zeros((2 * len(data), data.shape[1] + 1))
+        big[::2, :-1] = data
+        return big[::2, :-1]
+    if kind == "float32":
+        return data.astype(np.float32)
+    return data
+
+
+INPUT_KINDS = ["list", "tuple", "dataframe", "fortran", "strided", "int"]
+
+
+def same_snapshot(o1, o2, tol=None):
+    """tol=None: everything exactly; else estimates to tol relative and dependence parameters not compared
+    (float32 input: the engines then compute in single precision)"""
+    if o1["ok"] != o2["ok"]:
+        return "one raises (%s), the other does not" % (o1.get("err") or o2.get("err"))
+    if not o1["ok"]:
+        return None if o1["err"] == o2["err"] else "different exceptions %s / %s" % (o1["err"], o2["err"])
+    for i, (d1, d2) in enumerate(zip(o1["dims"], o2["dims"])):
+        if tol is None and d1["pars"] != d2["pars"]:
+            return "dimension %d: different estimates" % i
+        if tol is not None:
+            flat1 = d1["pars"] if not d1["cond"] else [v for p in d1["pars"] for v in p]
+            flat2 = d2["pars"] if not d2["cond"] else [v for p in d2["pars"] for v in p]
+            if len(flat1) != len(flat2) or not all(relclose(a, bb, tol, tol) for a, bb in zip(flat1, flat2)):
+                return "dimension %d: estimates differ by more than %g relative" % (i, tol)
+        if d1["cond"]:
+            if len(d1["data_intervals"]) != len(d2["data_intervals"]) or \
+                    not all(np.array_equal(a, bb) for a, bb in zip(d1["data_intervals"], d2["data_intervals"])):
+                return "dimension %d: different interval data" % i
+            if d1["conditioning_values"] != d2["conditioning_values"] or d1["boundaries"] != d2["boundaries"]:
+                return "dimension %d: different conditioning values / boundaries" % i
+            if tol is None and d1["deps"] != d2["deps"]:
+                return "dimension %d: different dependence parameters" % i
+    return None
+
+
+def input_oracle(case, notes):
+    """the data matrix as list of lists / tuples / pandas DataFrame / Fortran-ordered / strided view / integer or
+    float32 dtype gives the model an ndarray of the same values gives (every step is deterministic: exactly)"""
+    spec, fds, kind = case["spec"], case["spec"]["fds"], case["input"]
+    data = np.asarray(case["data"], dtype=float)
+    if kind == "int":
+        data = np.floor(data * 8) + 1.0       # integral values, positive
+        arg = data.astype(np.int64)
+    elif kind == "float32":
+        data = data.astype(np.float32).astype(float)
+        arg = data.astype(np.float32)
+    else:
+        arg = as_input(data, kind)
+    b1, b2 = build_model(spec), build_model(spec)
+    o1, _ = run_fit_raw(b1, data, fds)
+    o2, _ = run_fit_raw(b2, arg, fds)
+    if not o1["ok"] and o1.get("engine"):
+        notes["engine_errors_unjudged"] = notes.get("engine_errors_unjudged", 0) + 1
+        return None
+    d = same_snapshot(o1, o2, tol=1e-3 if kind == "float32" else None)
+    if d:
+        return ({"clause": "input-type", "input": kind}, "data given as %s: %s (%s)" % (kind, d, o2.get("msg", "")))
+    return None
+
+
+def run_fit_raw(b, data_arg, fds):
+    """run_fit without converting the data argument"""
+    import warnings
+    with np.errstate(all="ignore"), Recording() as rec:
+        try:
+            with warnings.catch_warnings():
+                warnings.simplefilter("ignore")
+                b.model.fit(data_arg, copy.deepcopy(fds))
+            out = {"ok": True, "dims": snapshot(b)}
+        except Exception as e:  # noqa
+            out = {"ok": False, "engine": rec.engine_raised or isinstance(e, NotImplementedError), "err": type(e).__name__, "msg": str(e)[:200]}
+    rec.refs = []
+    return out, rec
+
+
+BAD_INPUTS = ["too-few-intervals", "wrong-columns", "fds-length", "fds-no-method", "unknown-method"]
+
+
+def exception_oracle(case, notes):
+    """rejected input raises the documented exception, and a model whose fit raised is afterwards fitted like a fresh one"""
+    spec, fds, bad = case["spec"], case["spec"]["fds"], case["bad"]
+    data = np.asarray(case["data"], dtype=float)
+    nd = len(spec["dims"])
+    b1, b2 = build_model(spec), build_model(spec)
+    if bad == "too-few-intervals":
+        arg, f, want = data[:25], fds, "RuntimeError"          # fewer rows than min_n_points in every interval
+        if all(dm["conditional_on"] is None for dm in spec["dims"]):
+            return None
+    elif bad == "wrong-columns":
+        arg, f, want = np.column_stack([data, data[:, 0]]), fds, "ValueError"
+    elif bad == "fds-length":
+        arg, f, want = data, [None] * (nd + 1), "ValueError"
+    elif bad == "fds-no-method":
+        arg, f, want = data, [None] * (nd - 1) + [{"weights": None}], "ValueError"
+    else:
+        arg, f, want = data, [None] * (nd - 1) + [{"method": "moments"}], "ValueError"
+    ob, _ = run_fit_raw(b1, arg, f)
+    if ob["ok"] or ob["err"] != want:
+        if bad == "too-few-intervals" and not ob["ok"] and ob.get("engine"):
+            notes["engine_errors_unjudged"] = notes.get("engine_errors_unjudged", 0) + 1
+            return None
+        return ({"clause": "rejected-input", "bad": bad}, "%s: expected %s, got %s" % (bad, want, "no exception" if ob["ok"] else ob["err"] + ": " + ob["msg"]))
+    o1, _ = run_fit(b1, data, fds)       # the model whose previous fit raised
+    o2, _ = run_fit(b2, data, fds)       # fresh
+    if (not o2["ok"] and o2.get("engine")) or (not o1["ok"] and o1.get("engine") and o1["err"] == "RuntimeError"):
+        notes["engine_errors_unjudged"] = notes.get("engine_errors_unjudged", 0) + 1
+        return None
+    v = compare_models(spec, data, o2, o1, "re-fit", notes)
+    if v:
+        return dict(v[0], history="after-" + bad), "fit after a fit that raised (%s): %s" % (bad, v[1])
+    if o1["ok"]:
+        for i, (d1, d2) in enumerate(zip(o1["dims"], o2["dims"])):
+            if d1["cond"] and (d1["n_dists"] != d2["n_dists"] or not all(np.array_equal(a, bb) for a, bb in zip(d1["data_intervals"], d2["data_intervals"]))):
+                return ({"clause": "re-fit", "history": "after-" + bad}, "dimension %d: lists differ from a fresh fit after a fit that raised" % i)
+    return None
+
+
 # ------------------------------------------------------------------ driver
 def nontrivial(case, out):
     if not out["ok"]:
@@ -991,7 +1305,9 @@ def nontrivial(case, out):
 def run(ctx):
     _imp()
     ctx.proof_gate()
-    ncases = ctx.n(72, 240)
+    import time as _t
+    t_gate = _t.time() - ctx.t0
+    ncases = ctx.n(60, 240)
     cases = [gen_case(ctx, k, big=(k % 6 == 5)) for k in range(ncases)]
     dist = {}
     items, meta, suspects = [], [], []
@@ -1044,6 +1360,7 @@ def run(ctx):
     ctx.notes["engine_errors_skipped_in_correspondence"] = skipped
     # ---- correspondence
     import time
+    ctx.notes["seconds_proof_gate"] = round(t_gate, 1)
     ctx.notes["seconds_real_fits"] = round(time.time() - ctx.t0, 1)
     t1 = time.time()
     outs = ctx.coq_eval_many(items, jobs=12, timeout=1500)
@@ -1113,6 +1430,41 @@ def run(ctx):
             if ctx.violation(o2[0], "joint fit with nested dependence functions (%s, %s, fit to %d rows then re-fit to %d rows): %s" % (
                     nc["nested"], nc["spec"]["dims"][1]["template"], len(small["data_a"]), len(small["data_b"]), o2[1]), jsonable_nested(small)):
                 nested_found += 1
+    ctx.notes["seconds_until_extra_oracles"] = round(_t.time() - ctx.t0, 1)
+    # shipped model descriptions on rows of the shipped datasets (also through TransformedModel.fit)
+    extra = []
+    for j, name in enumerate(PREDEFINED if not ctx.quick() else [PREDEFINED[(ctx.seed + j) % len(PREDEFINED)] for j in range(3)]):
+        full = shipped_data(name)
+        n = ctx.rng.choice([2000, 3000] if ctx.quick() else [3000, len(full)])
+        idx = np.sort(ctx.np_rng(20000 + j).choice(len(full), size=min(n, len(full)), replace=False))   # time order kept
+        rows = full[idx]
+        extra.append((shipped_oracle, "shipped", {"predefined": name, "via_transformed": bool(ctx.rng.random() < 0.5), "data": rows,
+                                                  "perm": [int(i) for i in ctx.np_rng(21000 + j).permutation(len(rows))]}))
+    # input types and rejected input / history after an exception, on generated cases without PointsPerInterval ties trouble
+    plain = [c for c in cases if len(c["data"]) <= 1500]
+    for j in range(ctx.n(7, 28)):
+        c = plain[(3 * j) % len(plain)]
+        extra.append((input_oracle, "input", {"spec": c["spec"], "data": c["data"], "input": INPUT_KINDS[j % len(INPUT_KINDS)]}))
+    for j in range(ctx.n(5, 20)):
+        c = plain[(5 * j + 1) % len(plain)]
+        extra.append((exception_oracle, "rejected", {"spec": c["spec"], "data": c["data"], "bad": BAD_INPUTS[j % len(BAD_INPUTS)]}))
+    extra_found = 0
+    for fn, label, ec in extra:
+        if extra_found >= 3:
+            break
+        try:
+            o = fn(ec, ctx.notes)
+        except Exception as e:  # noqa
+            ctx.notes["oracle_crashes"] = ctx.notes.get("oracle_crashes", 0) + 1
+            ctx.notes["oracle_crash_last"] = "%s %s: %s" % (label, type(e).__name__, str(e)[:200])
+            continue
+        ctx.notes[label + "_cases"] = ctx.notes.get(label + "_cases", 0) + 1
+        ctx.count((label, ec.get("predefined"), ec.get("input"), ec.get("bad"), len(ec["data"]), float(ec["data"][0][0])), True)
+        if o is not None:
+            rep = dict(ec, data=[[float(v) for v in r] for r in np.asarray(ec["data"], dtype=float)])
+            if ctx.violation(o[0], "joint fit (%s, %d rows): %s" % (label, len(ec["data"]), o[1]), rep):
+                extra_found += 1
+    ctx.notes["seconds_total_before_finish"] = round(_t.time() - ctx.t0, 1)
     if ctx.notes.get("oracle_crashes", 0) > max(2, len(order) // 4):
         ctx.broken.append(("search", "property oracle crashed on %d cases" % ctx.notes["oracle_crashes"], ctx.notes.get("oracle_crash_last", "")))
     ctx.cov["rule"] = ("random 2-D / 3-D hierarchical models (chain, star, extra unconditional dimension) x the three slicers and their options x "
